@@ -66,7 +66,8 @@ def bounds(tier):
     return {
         'watchers': '1-2 ([watcher:aw], [watcher:b])',
         'env_pattern_sections': '<=3 distinct headers from %r, every order' % PATTERNS,
-        'layouts': len(LAYOUTS),
+        'layouts': LAYOUTS,
+        'env_content_modes': 'both for every layout' if tier == 'thorough' else 'mode 1 for every layout, mode 0 for layouts 0 and 2',
         'os_environ': sorted(ENVIRON),
         'option_slots': len(SLOTS),
         'options_at_a_time': 2 if tier == 'quick' else 3,
@@ -450,6 +451,8 @@ def shards(tier):
     out = []
     for layout in range(len(LAYOUTS)):
         for mode in (0, 1):
+            if tier == 'quick' and mode == 0 and layout not in (0, 2):
+                continue
             for genv in (False, True):
                 for nw in (1, 2):
                     out.append(('E', layout, mode, genv, nw))
@@ -623,21 +626,37 @@ class Checker(object):
             return 'C16.refs_expanded'
         return default
 
+    def defined_in(self, *texts):
+        """Where the variables referenced in `texts` are defined: os / env / env:NAME (a tag for the report)."""
+        tags = set()
+        for text in texts:
+            for a, b in REF.REFERENCE.findall(text or ''):
+                low = (a or b).lower()
+                if any(k.lower() == low for k in os.environ):
+                    tags.add('os')
+                for sec, items in self.raw:
+                    if (sec == 'env' or sec.startswith('env:')) and any(k.lower() == low for k, _ in items):
+                        tags.add('env' if sec == 'env' else 'env:NAME')
+        return '+'.join(sorted(tags)) or 'nowhere'
+
     def fail_exc(self, where, exc, raws):
-        refs = [k for k, v in raws if REF.has_reference(v)]
-        named = [k for k, v in raws if REF.has_reference(v) and v in str(exc)]
+        """circus raised on a file the documentation gives a meaning to."""
+        refs = [(k, v) for k, v in raws if REF.has_reference(v)]
+        named = [(k, v) for k, v in refs if v in str(exc)]
         refs = named or refs          # the option whose unexpanded text the error message quotes
         tb = traceback.extract_tb(exc.__traceback__)
         site = '%s:%s' % (os.path.basename(tb[-1].filename), tb[-1].name) if tb else '?'
-        if self.fam == 'R' or refs:
+        if refs:
             clause = 'C16.refs_expanded'
-            shape = 'error_on_reference:' + '+'.join(sorted(set(self._target_of(k) for k in refs))) if refs else 'error'
+            shape = 'error_on_reference:%s defined_in=%s' % (
+                '+'.join(sorted(set(self._target_of(k) for k, v in refs))), self.defined_in(*[v for k, v in refs]))
+            where = 'config.get_config/options'
         elif self.fam == 'E':
             clause, shape = 'C16.env_precedence', 'error'
         else:
             clause, shape = 'C16.values_typed', 'error:' + '+'.join(self.case['shape'].get('slots', []))
         detail = 'shape=%s | the documentation gives this file a meaning but circus raised %s: %s (at %s)' % (
-            shape, type(exc).__name__, str(exc)[:200], site)
+            shape, type(exc).__name__, str(exc)[:200].replace('\n', ' '), site)
         self.r.check(clause, False, detail, where, self.case, fp='%s|%s|%s' % (shape, type(exc).__name__, site))
 
     @staticmethod
@@ -662,7 +681,7 @@ class Checker(object):
         try:
             try:
                 ref = REF.read(main, environ, sys_path=scratch.saved_path)
-                raw = ref['raw']
+                raw = self.raw = ref['raw']
             except REF.Undefined as e:
                 r.info['undefined_by_docs'] = r.info.get('undefined_by_docs', 0) + 1
                 return False
@@ -745,11 +764,12 @@ class Checker(object):
         ok = _same(kind, exp, got)
         clause = self.clause_for(rawtext, default_clause)
         self.observed['%s.%s' % (name, opt)] = repr(got)
+        sites = ' defined_in=' + self.defined_in(rawtext) if clause.endswith('refs_expanded') else ''
         self.r.check(clause, ok,
-                     lambda: 'shape=%s:%s/%s | [watcher:%s] %s = %r is documented as %s %r, the watcher holds %r'
-                     % (what, self._target_of(opt), _mismatch(kind, exp, got), name, opt, rawtext, kind, exp, got),
+                     lambda: 'shape=%s:%s/%s%s | [watcher:%s] %s = %r is documented as %s %r, the watcher holds %r'
+                     % (what, self._target_of(opt), _mismatch(kind, exp, got), sites, name, opt, rawtext, kind, exp, got),
                      'config.get_config/options', self.case,
-                     fp='%s|%s|%s|%s' % (clause, what, self._target_of(opt), _mismatch(kind, exp, got)))
+                     fp='%s|%s|%s|%s%s' % (clause, what, self._target_of(opt), _mismatch(kind, exp, got), sites))
 
     def compare_options(self, name, exp, wd, w, wraw):
         r, case = self.r, self.case
@@ -897,6 +917,8 @@ class Checker(object):
             for part, clause0 in (('written', 'C16.values_typed'), ('defaults', 'C16.defaults')):
                 for k, val in exp[part].items():
                     kind = REF.SOCKET_OPTIONS[k][0]
+                    if k == 'umask' and not unix:
+                        continue            # "the umask that will be used to create an AF_UNIX socket"
                     if unix and k in ('host', 'port', 'family'):
                         # "If a path is provided, **family** is forced to AF_UNIX and **host** and **port** are ignored."
                         if k != 'family':
@@ -943,7 +965,7 @@ def run_shard(shard, tier):
             r.cases += 1
             defined, observed = check_case(case, scratch, r)
             if defined:
-                r.nontrivial.add(_digest(case['files']))
+                r.nontrivial.add(_digest([case['files'], case.get('environ_extra')]))
                 r.outcomes.add(_digest(observed))
             if len(r.samples) < 2:
                 r.samples.append({'shape': case['shape'], 'circus.ini': case['files']['circus.ini'].splitlines()})
